@@ -224,6 +224,34 @@ def claimLoop (c : Name) (elig : Bool) : Group → List Id → Group × List Id
 def claim (g : Group) (c : Name) (elig : Bool) (ids : List Id) : Group × List Id :=
   claimLoop c elig (createConsumer g c) ids
 
+/-! #### the idle test of XCLAIM made explicit
+
+`PendingEntry::last_delivery` (set by every delivery and by every successful claim) is kept beside the group as a
+map id → milliseconds; `now` is an input.  `claim_messages` skips an entry iff `!force && now - last_delivery < min_idle`
+(`duration_since(..).unwrap_or_default()` saturates at 0, as `Nat` subtraction does).  The Boolean `elig` of `claimOne`
+is this test; `claimT` threads the clock through the loop. -/
+
+abbrev Times := List (Id × Nat)
+
+def lastOf (ts : Times) (id : Id) : Nat := ((ts.find? (fun p => p.1 == id)).map (·.2)).getD 0
+def setLast (ts : Times) (id : Id) (t : Nat) : Times := (id, t) :: ts.filter (fun p => p.1 != id)
+
+def idleOk (now last minIdle : Nat) (force : Bool) : Bool := force || decide (minIdle ≤ now - last)
+
+def claimLoopT (c : Name) (now minIdle : Nat) (force : Bool) : Group × Times → List Id → (Group × Times) × List Id
+  | s, [] => (s, [])
+  | s, id :: ids =>
+    let r := claimOne c (idleOk now (lastOf s.2 id) minIdle force) s.1 id
+    let rest := claimLoopT c now minIdle force (r.1, if r.2 then setLast s.2 id now else s.2) ids
+    (rest.1, if r.2 then id :: rest.2 else rest.2)
+
+/-- `ConsumerGroup::claim_messages` with the real idle test -/
+def claimT (s : Group × Times) (c : Name) (now minIdle : Nat) (force : Bool) (ids : List Id) : (Group × Times) × List Id :=
+  claimLoopT c now minIdle force (createConsumer s.1 c, s.2) ids
+
+/-- a delivery (`add_pending`) stamps every delivered id with `now` -/
+def stamp (ts : Times) (ids : List Id) (now : Nat) : Times := ids.foldl (fun ts id => setLast ts id now) ts
+
 /-- `PendingEntryList::remove_consumer_entries` -/
 def removeConsumerEntries (g : Group) (c : Name) : Group × Nat :=
   match alGet c g.byConsumer with
